@@ -1,7 +1,7 @@
 #!/bin/sh
 # runall.sh [tier]  — run every claimed check sequentially against /repo; one summary line each
 tier="${1:-quick}"
-cd /verif
+cd "$(dirname "$0")/.." || exit 2
 for p in $(cat tools/claimed.txt); do
   s=$(date +%s)
   out=$(./check $p --tier $tier 2>&1 | grep -v "WARNING conda")
